@@ -1803,6 +1803,24 @@ func planC02(tier string, seed int64) (*Plan, error) {
 			ntabs++
 		}
 	}
+	// link reference definition boundary shapes (CommonMark 4.7): see harness/h/c02ref.go
+	nref := 0
+	for ws1 := 0; ws1 < 4; ws1++ {
+		for angle := 0; angle < 2; angle++ {
+			for tr := 0; tr < 3; tr++ {
+				jobs = append(jobs, job("H_c02_refdef", "ws1", ws1, "angle", angle, "sep", 0, "tr", tr))
+				nref++
+				for sep := 1; sep < 4; sep++ {
+					for q := 0; q < 3; q++ {
+						for tl := 1; tl <= 2; tl++ {
+							jobs = append(jobs, job("H_c02_refdef", "ws1", ws1, "angle", angle, "sep", sep, "q", q, "tl", tl, "tr", tr))
+							nref++
+						}
+					}
+				}
+			}
+		}
+	}
 	spec, err := LoadSpec()
 	if err != nil {
 		return nil, err
@@ -1838,6 +1856,7 @@ func planC02(tier string, seed int64) (*Plan, error) {
 		"symbolic":   "per tree, solved for at once: bullet marker in {-,+,*}, ordered delimiter in {.,)}, fence character in {`,~}, emphasis delimiter in {*,_}, thematic-break character in {*,-,_}, title quote in {\",'}, every text letter in a..z, every escaped punctuation byte over all 32 ASCII punctuation characters, numeric references &#33;..&#99;, a case flip for the first two letters of every full reference label",
 		"enumerated": "leading indentation 0-3, fence length 3-5, link style inline/full/collapsed/shortcut, hard break as backslash or two spaces, Setext vs ATX, ATX closing sequence, tab vs spaces for indented code (quick: the default spelling + 3 of 16 combinations per tree; thorough: 19 combinations)",
 		"tabs":       fmt.Sprintf("%d cases: chains of 1-3 container markers (block quote, bullet item) followed by every run of <= %d spaces/tabs and two symbolic letters; expected structure (paragraph, or indented code with its leading columns) from column arithmetic in the harness", ntabs, wsMax),
+		"refdef":     fmt.Sprintf("%d link reference definition boundary shapes (4.7): whitespace between colon and destination {space, line ending, line ending + 2 spaces, none} x destination {bare, <...>} x title {none; \" ' ( delimited, on one or two lines, separated by a space / a line ending / a line ending and a space} x trailer {nothing, a space, more text}, followed by a shortcut reference; label, destination, title and trailer letters symbolic; expected: definition with title / definition without title plus a paragraph / no definition, from 4.7", nref),
 		"spec":       fmt.Sprintf("%d examples of _test/spec.json (expected HTML from the file): final newline removed; an unrelated paragraph / ATX heading / thematic break with symbolic letters placed before; and, for the %d examples whose expected HTML ends in a closed block (p, h1-6, hr, blockquote, ul, ol), an extra final newline and the same unrelated block placed after; %d examples end in a code or HTML block and are skipped for the 'after' rewrites by that stated rule", nspec, nspec-nskip, nskip),
 		"comparison": "byte equality after deleting newlines directly behind '>' or directly in front of '<' and trailing newlines (a subset of what the specification's own normaliser ignores)",
 		"outside":    "tree shapes are enumerated, not symbolic; deeper or larger trees",
